@@ -188,8 +188,13 @@ defjvp(
 )
 defjvp(
     anp.linspace,
-    lambda g, ans, start, stop, *args, **kwargs: match_complex(ans, anp.linspace(g, 0, *args, **kwargs)),
-    lambda g, ans, start, stop, *args, **kwargs: match_complex(ans, anp.linspace(0, g, *args, **kwargs)),
+    # (the other endpoint is held at zero in its own shape: array endpoints broadcast against each other)
+    lambda g, ans, start, stop, *args, **kwargs: match_complex(
+        ans, anp.linspace(g, anp.zeros(anp.shape(stop)), *args, **kwargs)
+    ),
+    lambda g, ans, start, stop, *args, **kwargs: match_complex(
+        ans, anp.linspace(anp.zeros(anp.shape(start)), g, *args, **kwargs)
+    ),
 )
 
 
